@@ -9,6 +9,8 @@ from .ctx import MachineryError
 # (cfg suffix, p, a, b, G, n); prime order, p % 4 == 3 (pycoin's Generator accepts them unchanged)
 CURVES = {
     "p11": (11, 1, 6, (2, 4), 13),
+    "p23": (23, 1, 19, (2, 11), 19),       # n < p, small enough for complete ECDSA tables in the quick tier
+    "p31": (31, 1, 28, (0, 11), 23),       # n < p, Gx = 0 (r = 0 for k = 1: the signing retry path)
     "p43": (43, 0, 7, (2, 12), 31),        # a miniature secp256k1
     "p67": (67, 0, 2, (2, 12), 73),
     "p79": (79, 0, 3, (1, 2), 97),
